@@ -179,6 +179,76 @@ def run_defaults(acc, front, framing):
     return bad
 
 
+RECONF = [
+    [(1, 'W'), ('+', 4), (4, 'W'), (4, 'R')],                       # a unit added while the connection is open is hosted from then on
+    [(1, 'W'), ('-', 2), (0, 'W'), (2, 'W'), (3, 'R')],             # a unit removed: no longer addressed by a broadcast, absent afterwards
+    [(2, 'W'), ('-', 2), ('+', 2), (2, 'R')],                       # removed and added again with a fresh datastore
+    [('+', 4), ('-', 1), (0, 'W'), (4, 'R'), (1, 'R'), (3, 'R')],
+]
+
+
+def run_reconf(acc, front, framing, bc, ign, steps):
+    """the application adds / removes units of a multi-unit context between two reads of ONE open connection"""
+    ctx, ref, real, log = build((1, 2, 3), bc, ign)
+    srv = servers.Server(front, framing, ctx, broadcast_enable=bc, ignore_missing_slaves=ign)
+    conn = srv.open()
+    LAY = scenario.LAY
+    script, reqs, expected = [], [], []
+
+    def add(u):
+        st = scenario.unit_state(u + 7)
+        real[u] = LAY.build(st)
+        ctx[u] = Counting(real[u], log, u)
+
+    def remove(u):
+        del ctx[u]
+        real.pop(u, None)
+    for i, (a, b) in enumerate(steps):
+        if a == '+':
+            script.append(lambda u=b: add(u))
+            ref.stores[b] = LAY.ref(scenario.unit_state(b + 7))
+        elif a == '-':
+            script.append(lambda u=b: remove(u))
+            ref.stores.pop(b, None)
+        else:
+            m = REQS[b](i)
+            reqs.append((a, 0x0200 + i, b))
+            expected.append(ref.handle(a, m))
+            script.append(scenario.frame(framing, a, 0x0200 + i, m))
+    if servers.FRONTS[front][0] == 'stream':
+        writes = conn.run_script(script)
+    else:
+        writes = []
+        for it in script:
+            writes.extend(conn.run_script([it]))
+    got = scenario.parse_out(framing, writes)
+    after, want = scenario.dumps(real), scenario.ref_dumps(ref)
+    problems = []
+    gi = 0
+    for (unit, tid, kind), alts in zip(reqs, expected):
+        replies = [x for x in alts if x is not None]
+        if not replies:
+            continue
+        if gi < len(got) and any(scenario.match(framing, got[gi], unit, tid, x) is None for x in replies):
+            gi += 1
+        elif None not in alts:
+            problems.append('no-or-wrong-reply-for-%s%d' % (kind, unit))
+    if gi < len(got):
+        problems.append('extra-reply')
+    if after != want:
+        problems.append('wrong-store')
+    for where, e in srv.escaped:
+        problems.append('escape:' + type(e).__name__)
+    srv.shutdown()
+    acc.inc('transitions', len(steps))
+    acc.inc('evaluations')
+    for what in sorted(set(problems)):
+        acc.violation('C10/%s/%s/multi/bc=%d,ign=%d/reconfigured/%s' % (front, framing, bc, ign, what),
+                      dict(front=front, framing=framing, hosted=[1, 2, 3], bc=bc, ign=ign, reconf=[list(x) for x in steps]),
+                      '%s (steps %r, wrote %r)' % (what, steps, [w.hex() for w in writes][:6]), '%s/%s' % (front, framing))
+    return problems
+
+
 def run_one(acc, front, framing, hosted, bc, ign, steps, record=True):
     ctx, ref, real, log = build(hosted, bc, ign)
     srv = servers.Server(front, framing, ctx, broadcast_enable=bc, ignore_missing_slaves=ign)
@@ -274,6 +344,13 @@ def shard(args):
                         for k1, k2 in (('F', 'W'), ('G', 'C')):
                             run_one(acc, front, framing, hosted, bc, ign, [(a, k1), (b, k2), (a, 'R')])
                             n += 1
+    for bc in (False, True):
+        if bc and front.startswith('tw'):
+            continue
+        for ign in (False, True):
+            for steps in RECONF:
+                run_reconf(acc, front, framing, bc, ign, steps)
+                n += 1
     run_defaults(acc, front, framing)
     if framing == 'tcp' and front in ('sync-tcp', 'sync-udp', 'aio-udp', 'tw-udp'):
         for a, b in ((1, 2), (2, 1), (1, 1), (9, 1), (1, 9)):
@@ -302,7 +379,9 @@ def run(tier, seed):
 
 def replay(w):
     acc = Acc()
-    if w.get('stale'):
+    if w.get('reconf'):
+        p = run_reconf(acc, w['front'], w['framing'], w['bc'], w['ign'], [tuple(x) for x in w['reconf']])
+    elif w.get('stale'):
         p = run_stale_header(acc, w['front'], w['framing'], tuple(w['hosted']), w['stale'][0], w['stale'][1])
     elif w.get('defaults'):
         p = run_defaults(acc, w['front'], w['framing'])
